@@ -250,6 +250,13 @@ func (w *writer) WriteHeader(code int) {
 	if code < 100 || code > 999 {
 		panic(fmt.Sprintf("invalid WriteHeader code %v", code))
 	}
+	if code >= 100 && code <= 199 && code != http.StatusSwitchingProtocols {
+		// Informational responses do not decide the final status: net/http
+		// sends them as interim responses and keeps waiting for the final
+		// WriteHeader. Interim responses are not forwarded here, but they must
+		// not be latched as the status of the final response either.
+		return
+	}
 	w.statusCode.CompareAndSwap(0, int64(code))
 }
 
